@@ -90,7 +90,7 @@ def _proj_fields(pl):
     return out
 
 
-def origins(body, x, depth=12, transparent=TRANSPARENT, _seen=None):
+def origins(body, x, depth=24, transparent=TRANSPARENT, _seen=None):
     """Origins of an operand (dict with k copy/move/const) or place (dict with l,p)."""
     if _seen is None:
         _seen = set()
@@ -138,6 +138,8 @@ def origins(body, x, depth=12, transparent=TRANSPARENT, _seen=None):
         elif d[0] == "stmt":
             st = d[3]
             dfields = _proj_fields(st["pl"])
+            if st["pl"]["p"] and l in getattr(body, "inlined_params", ()):
+                continue    # a store through the parameter of an inlined helper (see inline.py)
             # assignment to a sub-place: only relevant if prefix matches
             rest = fields
             if dfields:
